@@ -51,7 +51,7 @@ func activeFact(ro *Roles) Atom {
 
 func c05(r *Run) {
 	w := r.W
-	ro := rolesOf(w)
+	ro := r.roles()
 	px := protoEffects(w)
 	kP := ro.kProcessing
 	s := &Search{}
@@ -65,7 +65,7 @@ func c05(r *Run) {
 	flows := map[*ssa.Function]bool{}
 	sites := callSitesOf(w, ro.closeCallback)
 	if len(sites) < 4 {
-		broken("ANCHOR-LOST C05: only %d call sites of the close-callback runner (expected >= 4)", len(sites))
+		r.absentf(" C05: only %d call sites of the close-callback runner (expected >= 4)", len(sites))
 	}
 
 	// ---- premise for the handler task: it starts with the processing lock held -------------
@@ -83,7 +83,7 @@ func c05(r *Run) {
 			}
 		})
 		if mk == nil {
-			broken("ANCHOR-LOST C05: runner.RunTask call in onProcess")
+			r.absentf(" C05: runner.RunTask call in onProcess")
 		}
 		wit := px.heldWitness(ro.onProcess, mk, kP, false, s)
 		r.obW("C05.R1:task-entry-held", "the handler task is started only on the success edge of trylock(processing) with no unlock before the hand-over", ro.onProcess, mk, wit, "RunTask call is Held(processing)")
@@ -108,7 +108,7 @@ func c05(r *Run) {
 		r.obW("C05.R1:panic-point-held:"+siteKey(w, ins), "every point of the handler task that can run user code (and so panic) is at Held(processing), so the panic path starts with the lock held", ro.task, ins, wit, "Held(processing)")
 	})
 	if nPanicPts < 3 {
-		broken("ANCHOR-LOST C05: only %d user-code points in the handler task", nPanicPts)
+		r.absentf(" C05: only %d user-code points in the handler task", nPanicPts)
 	}
 
 	// ---- R1/R2/R3 per call site of the callback runner ---------------------------------------
@@ -154,7 +154,7 @@ func c05(r *Run) {
 			}
 		})
 		if len(runs) == 0 {
-			broken("ANCHOR-LOST C05: no CloseCallback invocation inside the callback runner")
+			r.absentf(" C05: no CloseCallback invocation inside the callback runner")
 		}
 		lockOK := callResultAtom(ro.lock, true, kP)
 		for i, run := range runs {
@@ -452,7 +452,7 @@ func c05(r *Run) {
 			}
 		})
 		if prepSite == nil {
-			broken("ANCHOR-LOST C05: init does not call onPrepare")
+			r.absentf(" C05: init does not call onPrepare")
 		}
 		ss := &Search{Fn: initFn, Stop: func(ins ssa.Instruction) bool { return isCall(ins, initFin) }}
 		wit := ss.Find([]Start{Entry(initFn)}, func(ins ssa.Instruction) bool { return ins == prepSite }, false)
@@ -680,7 +680,7 @@ func c05OnceGuards(r *Run, ro *Roles, s *Search) {
 		}
 	})
 	if len(sysClose) == 0 {
-		broken("ANCHOR-LOST C05: netFD.Close does not call syscall.Close")
+		r.absentf(" C05: netFD.Close does not call syscall.Close")
 	}
 	isAddOn := func(field string) func(ssa.Value) bool {
 		return func(v ssa.Value) bool {
@@ -714,7 +714,7 @@ func c05OnceGuards(r *Run, ro *Roles, s *Search) {
 		}
 	})
 	if len(pollCtl) == 0 {
-		broken("ANCHOR-LOST C05: FDOperator.Control does not invoke Poll.Control")
+		r.absentf(" C05: FDOperator.Control does not invoke Poll.Control")
 	}
 	again := cmpAtom(isAddOn("FDOperator.detached"), isConstEq(1), func(op token.Token) (bool, bool) {
 		switch op {
